@@ -28,6 +28,14 @@ func wrapIn(k string, lvl int, inner []*model.N) []*model.N {
 		w := "w" + id
 		b := append([]*model.N{model.ExprS(model.Asg(w, model.Bin("+", model.Id(w), model.Num(1))))}, body...)
 		return []*model.N{model.Var(w, model.Num(0)), model.While(model.Bin("<", model.Id(w), model.Num(2)), model.Block(b...))}
+	case "for-noinc":
+		j := "n" + id
+		b := append([]*model.N{model.ExprS(model.Asg(j, model.Bin("+", model.Id(j), model.Num(1))))}, body...)
+		return []*model.N{model.For(model.Var(j, model.Num(0)), model.Bin("<", model.Id(j), model.Num(2)), nil, model.Block(b...))}
+	case "for-bare":
+		return []*model.N{model.For(nil, nil, nil, model.Block(append(body, model.Break())...))}
+	case "while-true":
+		return []*model.N{model.While(model.Bool(true), model.Block(append(body, model.Break())...))}
 	case "for":
 		j := "j" + id
 		return []*model.N{model.For(model.Var(j, model.Num(0)), model.Bin("<", model.Id(j), model.Num(2)), model.Asg(j, model.Bin("+", model.Id(j), model.Num(1))), model.Block(body...))}
@@ -36,17 +44,17 @@ func wrapIn(k string, lvl int, inner []*model.N) []*model.N {
 }
 
 func C04(c *fw.Ctx) {
-	depth, ilen := 4, 5
+	depth, ilen := 3, 5
 	if !c.Quick() {
-		depth, ilen = 5, 6
+		depth, ilen = 4, 6
 	}
 	if c.Tier == "deep" {
-		depth, ilen = 6, 7
+		depth, ilen = 5, 7
 	}
 	c.Bound("return_nesting_depth", depth)
 	c.Bound("closure_interleaving_len", ilen)
 	c.R.Rule = "return at every nesting path over {block, if-then, if-else, while, for}; arity n x m; every kind in callee position; direct and mutual recursion; every interleaving of calls to sibling closures of two counter instances under four holder forms; late update and use-after-scope; non-trivial = model-specified; distinct by text"
-	kinds := []string{"block", "then", "else", "while", "for"}
+	kinds := []string{"block", "then", "else", "while", "for", "for-noinc", "for-bare", "while-true"}
 	run := func(sig string, prog []*model.N) {
 		_, _, skipped := judge(c, prog, judgeOpts{SigPrefix: sig})
 		if !skipped {
@@ -193,14 +201,34 @@ func C04(c *fw.Ctx) {
 			model.Print(model.CallN("fib", model.Num(float64(d%12))))})
 	}
 	// (e) closure interleavings
+	site := "top"
 	factory := func() *model.N {
-		return model.Fun("mk", []string{"start"},
-			model.Var("n", model.Id("start")),
+		decls := []*model.N{
 			model.Fun("inc", nil, model.ExprS(model.Asg("n", model.Bin("+", model.Id("n"), model.Num(1)))), model.Return(model.Id("n"))),
 			model.Fun("get", nil, model.Return(model.Id("n"))),
 			model.Fun("add", []string{"k"}, model.ExprS(model.Asg("n", model.Bin("+", model.Id("n"), model.Id("k")))), model.Return(model.Id("n"))),
-			model.ExprS(model.Asg("n", model.Bin("+", model.Id("n"), model.Num(1000)))), // late update after creation
-			model.Return(model.Arr(model.Id("inc"), model.Id("get"), model.Id("add"))))
+		}
+		if site == "top" {
+			body := append([]*model.N{model.Var("n", model.Id("start"))}, decls...)
+			body = append(body, model.ExprS(model.Asg("n", model.Bin("+", model.Id("n"), model.Num(1000)))), // late update after creation
+				model.Return(model.Arr(model.Id("inc"), model.Id("get"), model.Id("add"))))
+			return model.Fun("mk", []string{"start"}, body...)
+		}
+		// the closures are declared inside a nested construct of the factory body
+		inner := append(decls, model.ExprS(model.Asg("fs", model.Arr(model.Id("inc"), model.Id("get"), model.Id("add")))))
+		var nest *model.N
+		switch site {
+		case "block":
+			nest = model.Block(inner...)
+		case "if":
+			nest = model.If(model.Bin(">=", model.Id("start"), model.Num(0)), model.Block(inner...), nil)
+		case "for":
+			nest = model.For(model.Var("once", model.Num(0)), model.Bin("<", model.Id("once"), model.Num(1)), model.Asg("once", model.Num(1)), model.Block(inner...))
+		case "while":
+			nest = model.While(model.Bin("==", model.Id("fs"), model.Nil()), model.Block(inner...))
+		}
+		return model.Fun("mk", []string{"start"}, model.Var("n", model.Id("start")), model.Var("fs", model.Nil()), nest,
+			model.ExprS(model.Asg("n", model.Bin("+", model.Id("n"), model.Num(1000)))), model.Return(model.Id("fs")))
 	}
 	type holder struct {
 		name  string
@@ -238,17 +266,39 @@ func C04(c *fw.Ctx) {
 			return model.CallN("pick", model.Num(float64(inst)), model.Num(float64(which)))
 		}},
 	}
-	for hi, hd := range holders {
+	type combo struct {
+		hi   int
+		site string
+	}
+	combos := []combo{{0, "top"}, {1, "top"}, {2, "top"}, {3, "top"}, {0, "block"}, {0, "if"}, {0, "for"}, {0, "while"}, {2, "if"}}
+	for _, cb := range combos {
+		hi, hd := cb.hi, holders[cb.hi]
+		site = cb.site
 		L := ilen
-		if hi > 0 {
-			L = ilen - 1 // the other holder forms one step shallower
+		if hi > 0 || site != "top" {
+			L = ilen - 1 // the other holder forms and declaration sites one step shallower
+		}
+		nact := 6
+		if hi == 0 {
+			nact = 8 // plus: re-create instance B; call a closure of the old B kept aside
 		}
 		seq := make([]int, 0, L)
 		var rec2 func()
 		rec2 = func() {
 			if len(seq) > 0 && c.Mine() {
 				prog := hd.setup()
+				if hi == 0 {
+					prog = append(prog, model.Var("oldB", model.Id("B")))
+				}
 				for step, hnd := range seq {
+					if hnd == 6 {
+						prog = append(prog, model.ExprS(model.Asg("oldB", model.Id("B"))), model.ExprS(model.Asg("B", model.CallN("mk", model.Num(float64(500+step))))))
+						continue
+					}
+					if hnd == 7 {
+						prog = append(prog, model.Print(model.Call(model.Idx(model.Id("oldB"), model.Num(1)))))
+						continue
+					}
 					inst, which := hnd/3, hnd%3
 					var call *model.N
 					if which == 2 {
@@ -258,7 +308,7 @@ func C04(c *fw.Ctx) {
 					}
 					prog = append(prog, model.Print(call))
 				}
-				run("closures|"+hd.name, prog)
+				run("closures|"+hd.name+"|"+site, prog)
 				if c.R.States%3000 == 1 {
 					c.Sample(map[string]string{"program": model.Render(parenAll(prog))})
 				}
@@ -266,7 +316,7 @@ func C04(c *fw.Ctx) {
 			if len(seq) == L {
 				return
 			}
-			for hnd := 0; hnd < 6; hnd++ {
+			for hnd := 0; hnd < nact; hnd++ {
 				seq = append(seq, hnd)
 				rec2()
 				seq = seq[:len(seq)-1]
